@@ -111,6 +111,21 @@ fn main() {
             println!("{}", c.to_json().pretty());
             0
         }
+        "find" => {
+            // indices of the cases whose "source" parameter contains a needle (debugging aid)
+            let p = props::by_id(arg(&args, "--prop").unwrap_or("")).expect("unknown property");
+            let needle = arg(&args, "--source").unwrap_or("");
+            let tier = tier_of(arg(&args, "--tier"));
+            let max: u64 = arg(&args, "--max").and_then(|s| s.parse().ok()).unwrap_or(p.runs(tier));
+            for idx in 0..max {
+                let c = p.gen(props::case_seed(seed, p.id(), idx), idx, tier);
+                let src = c.params.get("source").and_then(|j| j.str().map(|s| s.to_string())).unwrap_or_default();
+                if src.contains(needle) {
+                    println!("{} {} ops={}", idx, src, c.ops.len());
+                }
+            }
+            0
+        }
         "native-c07" => {
             #[cfg(feature = "native")]
             {
